@@ -338,6 +338,7 @@ class State:
         self.apc = []     # facts established by passed asserts/assumes (each one is also an obligation)
         self.defs = []    # definitional axioms of fresh variables introduced on this path
         self.tables = {}  # memo of table-read abstractions on this path
+        self.divs = []    # (dividend term, divisor value, quotient var, remainder var) introduced on this path
         self.steps = 0
         self.nfid = 0
         self.trace = []
@@ -351,6 +352,7 @@ class State:
         s.apc = list(self.apc)
         s.defs = list(self.defs)
         s.tables = self.tables
+        s.divs = list(self.divs)
         s.steps = self.steps
         s.nfid = self.nfid
         s.trace = list(self.trace)
@@ -374,6 +376,7 @@ class PathResult:
         self.pc = state.pc
         self.apc = state.apc
         self.defs = state.defs
+        self.divs = state.divs
         self.ret = ret
         self.mem = state.mem
         self.trace = state.trace
@@ -923,6 +926,9 @@ class Executor:
                 nm, v = f.split(": ", 1)
                 fields.append(self._const(st, v))
             return Agg(fields, None, m.group(1))
+        m = re.fullmatch(r"(?:std|core)::option::Option::<.*>::None", c)
+        if m:
+            return Agg([], "None", "Option")
         m = re.fullmatch(r"([\w:]+)::(\w+)::(\w+)", c)
         if m and m.group(2) in src_enums() and m.group(3) in src_enums()[m.group(2)]:
             return Agg([], m.group(3), m.group(1) + "::" + m.group(2))
@@ -1220,13 +1226,18 @@ class Executor:
             return Int(a.ty, simp(z3.URem(x, y) if op == "Rem" else z3.UDiv(x, y)))
         if signed:
             raise Unsupported("signed symbolic division")
-        # unsigned: fresh quotient/remainder + division lemma (unique solution, so sound)
+        # unsigned: fresh quotient/remainder + division lemma (unique solution, so sound);
+        # Div and Rem of the same operands share one pair
+        for (dx, dy, dq, dr) in self.cur.divs:
+            if dx.eq(x) and dy.eq(y):
+                return Int(a.ty, dq if op == "Div" else dr)
         self.fresh += 1
         q = z3.BitVec("divq%d" % self.fresh, bits)
         r = z3.BitVec("divr%d" % self.fresh, bits)
         w = 2 * bits
         ze = lambda t: z3.ZeroExt(bits, t)
         self.cur.defs.append(z3.Implies(y != 0, z3.And(ze(x) == ze(q) * ze(y) + ze(r), z3.ULT(r, y))))
+        self.cur.divs.append((x, y, q, r))
         return Int(a.ty, q if op == "Div" else r)
 
 
@@ -1658,11 +1669,37 @@ def _i_range_incl_contains(ex, st, fr, callee, args):
     return Int("bool", simp(z3.And(ge, le)))
 
 
+def _deref(ex, st, v):
+    return ex._read(st, v.place) if isinstance(v, Ref) else v
+
+
+def _i_struct_ne(ex, st, fr, callee, args):
+    a, b = _deref(ex, st, args[0]), _deref(ex, st, args[1])
+    if not (isinstance(a, Agg) and isinstance(b, Agg) and len(a.fields) == len(b.fields)):
+        raise Unsupported("derived PartialEq on non-struct")
+    ne = z3.Or([x.t != y.t for x, y in zip(a.fields, b.fields)])
+    if callee.endswith("::eq"):
+        return Int("bool", simp(z3.Not(ne)))
+    return Int("bool", simp(ne))
+
+
+def _i_range_bound(which):
+    def f(ex, st, fr, callee, args):
+        r = args[0]
+        if not isinstance(r, Ref):
+            raise Unsupported("range bound of non-reference")
+        return Agg([Ref((r.place[0], r.place[1] + (("f", which),)))], "Included", "Bound")
+    return f
+
+
 def _i_identity(ex, st, fr, callee, args):
     return args[0]
 
 
 DEFAULT_INTRINSICS = {
+    r"<lexical_util::extended_float::ExtendedFloat<u64> as (std|core)::cmp::PartialEq>::(ne|eq)": _i_struct_ne,
+    r"<(std|core)::ops::RangeInclusive<\w+> as (std|core)::ops::RangeBounds<\w+>>::start_bound": _i_range_bound(0),
+    r"<(std|core)::ops::RangeInclusive<\w+> as (std|core)::ops::RangeBounds<\w+>>::end_bound": _i_range_bound(1),
     r"(core|std)::ops::RangeInclusive::<\w+>::contains::<\w+>|(core|std)::ops::RangeInclusive::contains": _i_range_incl_contains,
     r"(core|std)::num::<impl \w+>::\w+": _i_num_method,
     r"<(core|std)::ops::Range<\w+> as (core|std)::iter::IntoIterator>::into_iter": _i_identity,
